@@ -1564,6 +1564,38 @@ fn run() {
         // middle of a burst (decided from the history itself: the generator stream of the
         // other histories is unchanged)
         cfg.late_join = cfg.concurrent && fnv64(format!("{:?}", ops).as_bytes()) % 2 == 0;
+        // One history in six gets a directed block somewhere in the middle that makes a
+        // destination id change hands for certain (the RIB is emptied, P is announced and
+        // sent, P is withdrawn and a different prefix Q announced before the next flush: Q
+        // is given P's id while P's withdrawal is still pending at the neighbour).  Decided
+        // from the history itself, so the generator stream of the others is unchanged.
+        let mut ops = ops;
+        let h = fnv64(format!("recycle{:?}", ops).as_bytes());
+        if !cfg.concurrent && h % 6 == 0 {
+            let first_peer = if cfg.obs_is_source { 0 } else { 1 };
+            let a = first_peer + ((h >> 8) as usize) % (N_PEERS - first_peer);
+            let b = first_peer + ((h >> 16) as usize) % (N_PEERS - first_peer);
+            let p = ((h >> 24) as usize) % N_PFX;
+            let q = (p + 1 + ((h >> 32) as usize) % (N_PFX - 1)) % N_PFX;
+            let mut block: Vec<Op> = (first_peer..N_PEERS).map(|peer| Op::PeerDown { peer }).collect();
+            block.extend([
+                Op::Deliver { k: 100_000 },
+                Op::Flush,
+                Op::Announce { peer: a, pfx: p, pid: 0, attr: 0, nh: 0 },
+                Op::Deliver { k: 100_000 },
+                Op::Flush,
+                Op::Withdraw { peer: a, pfx: p, pid: 0 },
+                Op::Announce { peer: b, pfx: q, pid: 0, attr: 1, nh: 0 },
+                Op::Deliver { k: 100_000 },
+                Op::Flush,
+                Op::Check,
+            ]);
+            let at = ((h >> 40) as usize) % (ops.len().max(1));
+            let tail = ops.split_off(at);
+            ops.extend(block);
+            ops.extend(tail);
+            rep.count("histories-with-directed-id-handover");
+        }
         if let Some(o) = only {
             if o != hist_idx {
                 continue;
